@@ -167,11 +167,13 @@ def extract(ctx):
 def locking_build(rc, flavor="asan"):
     """(bdir, defs) of a libcoap build that has locking compiled in, with lock variant rc"""
     b, cfgs, _ = t1()
-    if flavor != "asan":
-        b = builds(flavor)
     for n, p in cfgs:
         if compiled_in(p) and int(p["rc"]) == rc:
-            return b[n]
+            if flavor == "asan":
+                return b[n]
+            if n == "cmake":
+                return C.build_libcoap(flavor), []
+            return C.build_libcoap(flavor, extra_defs=" ".join(at_defs()), cmake_args=OFF, tag="at"), at_defs()
     # neither configuration of the tree gives this variant with locking on: force it
     d = ["-DCOAP_THREAD_SAFE=1"] + (["-DCOAP_THREAD_RECURSIVE_CHECK=1"] if rc else [])
     return C.build_libcoap(flavor, extra_defs=" ".join(d), cmake_args=OFF, tag="on%d" % rc), d
@@ -291,7 +293,7 @@ def judge(ctx, c):
             return ("spec", "application callback invoked without a coap_lock_callback* macro (re-entering the API from it self-deadlocks): " + i)
         return None if i == m else ("tie", "scan fact differs from Generated.callbackSites: %s vs %s" % (i, m))
     if op == "lksmoke":
-        return None if i == "ok" else ("spec", "TSan multi-thread smoke run: " + i[:300])
+        return None if i == "ok" else ("spec", "TSan multi-thread smoke run (2..8 application threads + I/O thread, callbacks re-entering the API): " + i[:300])
     if op == "lkseq":
         if i == "ill-nested" or m == "ill-nested":
             return None if i == m else ("tie", "nesting check differs: %s vs %s" % (i, m))
@@ -327,6 +329,9 @@ def judge(ctx, c):
 
 def known(ctx, c):
     w = c["input"].split()
+    if w[0] == "lksmoke" and (c["impl"] or "").startswith("tsan:"):
+        if all(e == "data-race@global_lock" for e in c["impl"][5:].split(";")):
+            return "lock-precheck-race"
     if w[0] == "lkcb" and c["impl"] == "wrapped=0":
         field = re.split(r"->|\.", w[3])[-1]
         if field in AUX_CALLBACKS:
